@@ -126,10 +126,36 @@ func allZero(b []byte) bool {
 	return true
 }
 
+// refresh reads the kernel's view of a real region (protection, mlock) from /proc/self/smaps: the
+// memguard library changes them without going through the interface (Freeze, Melt, Destroy).
+func (p *pageT) refresh() {
+	if p == nil || !p.real || !p.mapped {
+		return
+	}
+	v := smapsAt(p.base)
+	if v == "unmapped" || v == "nosmaps" {
+		if v == "unmapped" {
+			p.mapped, p.locked, p.mem = false, false, nil
+		}
+		return
+	}
+	f := strings.Split(v, ",")
+	switch f[0] {
+	case "---":
+		p.prot = 0
+	case "r--":
+		p.prot = 1
+	case "rw-":
+		p.prot = 2
+	}
+	p.locked = f[1] == "lo"
+}
+
 func (p *pageT) class() string {
 	if p == nil {
 		return "-"
 	}
+	p.refresh()
 	if !p.mapped {
 		return "unmapped"
 	}
@@ -518,6 +544,7 @@ func pageStr(p *pageT) string {
 	if p == nil {
 		return "-"
 	}
+	p.refresh()
 	m, l := "-", "-"
 	if p.mapped {
 		m = "M"
